@@ -143,3 +143,34 @@ PROPS["C20"] = dict(
     assumptions=["wall-clock budget 5 s per call and 20 s per family case are >= 20x the observed values on the repaired tree; they never decide alone: "
                  "the count bound is the proved criterion"],
 )
+
+ALL_OPTS = list(range(96))
+
+PROPS["C08"] = dict(
+    lean_modules=["WgslVerif.Props.C08"],
+    theorems=["WgslVerif.C08", "WgslVerif.C08_mem", "WgslVerif.C08_nodup", "WgslVerif.structWanted_iff",
+              "WgslVerif.globalVariableTypes_mem", "WgslVerif.typeArenaOkB_sound"],
+    streams=lambda tier, seed: (
+        [("fixtures",), ("gen", "structs", seed, 500), ("gen", "general", seed, 300), ("gen", "vertex", seed, 150), ("gen", "entries", seed, 100)] if tier == "quick" else
+        [("fixtures",), ("gen", "structs", seed, 12000), ("gen", "general", seed, 6000), ("gen", "vertex", seed, 3000), ("gen", "entries", seed, 2000), ("gen", "scale", seed, 300)]),
+    opts=q_opts([4, 37], [4, 37, 70]),
+    rule="cases: fixtures + generator profiles structs/general/vertex/entries (structs only in uniform/storage/private/workgroup variables, through arrays, nested arrays, "
+         "nested structs, only as vertex input, vertex input and storage, fragment input, entry result, function-local, unused); non-trivial = the module has at least one struct type; "
+         "distinct = distinct WGSL text",
+    trusted_base=COMMON_TRUSTED + ["TypeArenaOk (types refer to earlier types; struct names distinct) is a hypothesis about naga, evaluated (typeArenaOkB) on every dumped module"],
+    assumptions=["the operator precedence `!A && B || C` of the struct filter is mirrored literally in the model (structWanted) and pinned by structWanted_iff"],
+)
+
+PROPS["C09"] = dict(
+    lean_modules=["WgslVerif.Props.C09"],
+    theorems=["WgslVerif.C09", "WgslVerif.C09_rustStruct", "WgslVerif.C09_noninterference", "WgslVerif.C09_panics", "WgslVerif.deriveListB_table"],
+    streams=lambda tier, seed: (
+        [("fixtures",), ("gen", "structs", seed, 60), ("gen", "vertex", seed, 30), ("gen", "general", seed, 30)] if tier == "quick" else
+        [("fixtures",), ("gen", "structs", seed, 1500), ("gen", "vertex", seed, 500), ("gen", "general", seed, 500)]),
+    # all 2^4 derive switches x 3 representations x validation off/on
+    opts=q_opts(ALL_OPTS[:48], ALL_OPTS),
+    rule="cases: fixtures + generator profiles structs/vertex/general, each under ALL 2^4 derive-switch combinations x 3 representations (x validation on/off in the thorough tier); "
+         "non-trivial = at least one struct emitted or a documented panic reached; distinct = distinct WGSL text",
+    trusted_base=COMMON_TRUSTED,
+    assumptions=["host-shareable = membership in the closure of module-scope variable types (C08: globalVariableTypes_mem)"],
+)
